@@ -39,6 +39,7 @@ type Plan struct {
 	Secret string `json:"secret,omitempty"` // "rand" | zero | one | minus1
 	// threshold RSA
 	Key      string `json:"key,omitempty"`
+	SmallE   int    `json:"small_e,omitempty"` // the key's public exponent is replaced by this small one (3, 5, 7, 17, 257)
 	Cache    bool   `json:"cache,omitempty"`
 	Resign   bool   `json:"resign,omitempty"` // every player already signed an earlier message with the same share object
 	Rotate   bool   `json:"rotate,omitempty"` // restarting players load the new share into the object that held the previous deal's share
@@ -125,6 +126,10 @@ func gen(r *core.PRNG, tier string) any {
 		p.Arrive = subsetPlan(r, p.N, p.T)
 		p.Rotate = r.Chance(1, 3)
 		p.Resign = r.Chance(1, 3)
+		if r.Chance(1, 8) {
+			p.Key = "safe-1024-a"
+			p.SmallE = []int{3, 5, 7, 17, 257}[r.Intn(5)]
+		}
 	}
 	for _, a := range p.Arrive {
 		if r.Chance(1, 5) {
@@ -423,11 +428,46 @@ func execRSA(p *Plan, run *core.Run) {
 	}
 	comp := "tss/rsa"
 	l, k := uint(p.N), uint(p.T)
+	eShares := false // the exponent has a prime factor <= l: Shoup's scheme cannot serve such a key
+	if p.SmallE != 0 {
+		// "every RSA key": the same primes with a small public exponent (crypto/rsa signs and
+		// verifies with such keys). The threshold scheme needs e coprime to l!; a dealer that
+		// cannot serve a key has to say so, not hand out shares that never combine.
+		if p.SmallE < 3 || p.SmallE > 65537 || len(key.Primes) != 2 {
+			run.Bad("small e")
+			return
+		}
+		one := big.NewInt(1)
+		phi := new(big.Int).Mul(new(big.Int).Sub(key.Primes[0], one), new(big.Int).Sub(key.Primes[1], one))
+		d := new(big.Int).ModInverse(big.NewInt(int64(p.SmallE)), phi)
+		if d == nil {
+			run.Bad("e not invertible for this key")
+			return
+		}
+		nk := &rsa.PrivateKey{PublicKey: rsa.PublicKey{N: new(big.Int).Set(key.N), E: p.SmallE}, D: d, Primes: []*big.Int{new(big.Int).Set(key.Primes[0]), new(big.Int).Set(key.Primes[1])}}
+		nk.Precompute()
+		if nk.Validate() != nil {
+			panic("HARNESS: small-exponent key does not validate")
+		}
+		key = nk
+		for f := 2; f <= p.N; f++ {
+			if p.SmallE%f == 0 {
+				eShares = true
+			}
+		}
+		run.Fault("keys:small-public-exponent")
+	}
 	shares, err := tssrsa.Deal(core.NewStream(p.Seed), l, k, key, p.Cache)
 	if err != nil {
-		run.Violate(comp+".Deal", "error-on-valid-parameters", "l=%d k=%d key %s: %v", l, k, p.Key, err)
+		if eShares {
+			run.T("rsa", "refused-exponent")
+			return // refused, as it must be
+		}
+		run.Violate(comp+".Deal", "error-on-valid-parameters", "l=%d k=%d key %s e=%d: %v", l, k, p.Key, key.E, err)
 		return
 	}
+	// (if Deal accepted a key whose exponent has a prime factor <= l, the run goes on: the shares
+	// it handed out must then work like any others)
 	run.T("rsa", fmt.Sprint(l), fmt.Sprint(k))
 	pub := &key.PublicKey
 	msg := core.NewPRNG(p.Seed + 3).Bytes(40)
